@@ -262,12 +262,17 @@ def fam_len1_mixed(r):
     vars_ = [("x", ROUND(r, n), None)]
     pars = [("A", "matrix", dict(value=_matrix(r, n, n))), ("c", "plain", dict(value=ROUND(r, 1)))]
     X = ("var", 0, ("w",))
-    opts = ["c*x + A@x", "d[0]*x + A@x", "A@(c*x)", "c*(A@x)", "A@x + c"]
+    opts = ["c*x + A@x", "b - (c*x + A@x)", "d[0]*x + A@x", "2*(c*x + A@x)", "A@(c*x)", "c*(A@x)", "A@x + c"]
     which = opts[_len1_counter[0] % len(opts)]             # every form in turn (the first two in every quick run)
     _len1_counter[0] += 1
     if which == "d[0]*x + A@x":                       # one element of a longer vector parameter is a length-one operand too
         pars.append(("d", "plain", dict(value=ROUND(r, 3))))
         e0 = ("sub", ("add", ("mul", ("par", 2, ("i", 0)), X), ("matvec", 0, n, X)), ("num", 1.0))
+    elif which == "b - (c*x + A@x)":                 # the sum below a factor (-1): sympy keeps it as one product
+        pars.append(("b2", "plain", dict(value=ROUND(r, n))))
+        e0 = ("sub", ("par", 2, ("w",)), ("add", ("mul", ("par", 1, ("w",)), X), ("matvec", 0, n, X)))
+    elif which == "2*(c*x + A@x)":
+        e0 = ("sub", ("mul", ("num", 2.0), ("add", ("mul", ("par", 1, ("w",)), X), ("matvec", 0, n, X))), ("num", 1.0))
     elif which == "c*x + A@x":
         e0 = ("sub", ("add", ("mul", ("par", 1, ("w",)), X), ("matvec", 0, n, X)), ("num", 1.0))
     elif which == "A@(c*x)":
@@ -546,6 +551,26 @@ def classes(gm):
     return out
 
 
+def idx_param_failures():
+    """an index parameter whose values are not integers (0.29*100 = 28.999999999999996) is refused, or means numpy's own reading
+    (numpy refuses a float subscript array); never a silently truncated index"""
+    out = []
+    try:
+        from Solverz import Model, Var, Param, IdxParam, Eqn, made_numerical
+        d = np.arange(40.0) * 1.5
+        m = Model(); m.x = Var("x", [1.0, 2.0]); m.d = Param("d", d); m.i = IdxParam("i", [0.29 * 100, 3])
+        m.e = Eqn("e", m.x - m.d[m.i])
+        eqs, y0 = lang.quiet(m.create_instance)
+        nd = lang.quiet(made_numerical, eqs, y0, sparse=True)
+        F = np.asarray(nd.F(np.array([1.0, 2.0]), nd.p), dtype=float)
+        if not np.allclose(F, np.array([1.0, 2.0]) - d[[29, 3]]):
+            out.append(f"IdxParam('i', [0.29*100, 3]) (= [28.999999999999996, 3]) was accepted and x - d[i] evaluates to {F}: the index was "
+                       f"truncated to 28 (d[28] = {d[28]}, d[29] = {d[29]}); numpy itself refuses a float subscript")
+    except Exception:  # noqa — refused loudly
+        pass
+    return out
+
+
 def run(rep, tier, seed):
     rep.cov["trusted_base"] = BASE_TRUST + [
         "the reference semantics (Core/Lang.lean) give the meaning of the extended grammar: Python's slice.indices for strides, "
@@ -594,6 +619,8 @@ def run(rep, tier, seed):
         except LeanError as ex:
             answers = None
             rep.violation(f"driver: {ex}", dict(kind="tie", detail=str(ex)), has_input=False) if not failed else None
+        for m_idx in idx_param_failures():
+            fails.append((dict(family="index-parameter", backend="inline-sparse", what="F", model="x - d[i], i = IdxParam([0.29*100, 3])"), m_idx))
         counted = set()
         for slot, ans in zip(slots, answers or []):
             gm, family, which, pi = slot["gm"], slot["family"], slot["which"], slot["pi"]
